@@ -72,7 +72,7 @@ Print Assumptions append_accepted_iff_fits.
 
 Theorem resize_accepted_iff_fits : forall s m n, InvA s ->
   (is_ok (snd (step_resize s m n)) <->
-   0 <= n /\ (glay s m = nil \/ last_end (sz s) (rel s) (glay s m) <= 8 * n)).
+   0 <= n /\ (n = gbytes s m \/ n <= 2 ^ 60 - 1) /\ (glay s m = nil \/ last_end (sz s) (rel s) (glay s m) <= 8 * n)).
 Proof. exact resize_accepted_iff. Qed.
 Print Assumptions resize_accepted_iff_fits.
 
